@@ -23,6 +23,7 @@ type RunResult struct {
 	LinResult string
 	HealAt    int // index in Trace of the HealPhase marker (-1: none)
 	SimTicks  int
+	ReadyLog  []uint64
 	Final     string
 }
 
@@ -77,6 +78,7 @@ func fill(c *Cluster, res *RunResult) {
 	res.Stats = c.stats
 	res.Trace = c.trace
 	res.SimTicks = c.stats.Ticks
+	res.ReadyLog = c.readyLog
 	if c.viol != nil {
 		res.Final = c.DebugState()
 		if rl := c.RaftLog(); len(rl) > 0 {
@@ -113,4 +115,26 @@ func Replay(rc RunConfig, actions []Action, opt Options) *RunResult {
 	finalChecks(c, res)
 	fill(c, res)
 	return res
+}
+
+// DeterminismCheck is C19 dt.replay: the recorded call sequence of a run is
+// executed again on fresh nodes (equal storage, equal configuration, equal
+// election-timeout draws) and every Ready must be byte-identical. Go
+// randomises map iteration per iteration, so an output that depends on map
+// order differs between the two executions with high probability.
+func DeterminismCheck(first *RunResult, opt Options) *Violation {
+	second := Replay(first.Config, first.Trace, opt)
+	a, b := first.ReadyLog, second.ReadyLog
+	n := min(len(a), len(b))
+	for i := 0; i < n; i++ {
+		if a[i] != b[i] {
+			return &Violation{Property: "C19", Oracle: "dt.replay", Sig: "dt.replay", Step: i,
+				Msg: fmt.Sprintf("Ready number %d differs between two executions of the same call sequence (of %d / %d Readys)", i+1, len(a), len(b))}
+		}
+	}
+	if len(a) != len(b) || first.Digest != second.Digest {
+		return &Violation{Property: "C19", Oracle: "dt.replay", Sig: "dt.replay", Step: n,
+			Msg: fmt.Sprintf("two executions of the same call sequence diverge after %d identical Readys (digests %s / %s)", n, first.Digest, second.Digest)}
+	}
+	return nil
 }
